@@ -47,6 +47,27 @@ def parseToks : List String → Option (List Links.Tok)
     | some t, some ts => if t.isEmpty then none else some (t :: ts)
     | _, _ => none
 
+def parseLinkOps : List String → Option (List Links.LinkOp)
+  | [] => some []
+  | op :: a :: b :: r =>
+    match a.toNat?, parseLinkOps r with
+    | some a, some ops =>
+      if op == "m" then (b.toNat?).map fun b => .mutual a b :: ops
+      else if op == "z" then some (.clear a :: ops)
+      else none
+    | _, _ => none
+  | _ => none
+
+def linkOpInRange (n : Nat) : Links.LinkOp → Bool
+  | .mutual a b => decide (a < n) && decide (b < n)
+  | .clear a => decide (a < n)
+
+def vecStr (n : Nat) (f : Nat → Option Nat) : String :=
+  ",".intercalate ((List.range n).map fun i => optStr (f i))
+
+def parseInt (s : String) : Option Int :=
+  if s.startsWith "-" then (s.drop 1).toNat?.map fun n => -(Int.ofNat n) else s.toNat?.map Int.ofNat
+
 def step (line : String) : String :=
   match fields line with
   | "ast" :: n :: rest =>
@@ -64,6 +85,18 @@ def step (line : String) : String :=
   | "links2" :: toks =>      -- stale links are cleared by the loop: same result
     match parseToks toks with
     | some ts => linksStr (Links.createLinks ts)
+    | none => "bad-op"
+  | "lnk" :: n :: rest =>
+    match n.toNat?, parseLinkOps rest with
+    | some n, some ops =>
+      if ops.all (linkOpInRange n) then
+        let tr := Links.linkTrace (fun _ => none) ops
+        if tr.isEmpty then "-" else " | ".intercalate (tr.map (vecStr n))
+      else "bad-op"
+    | _, _ => "bad-op"
+  | ["num", v] =>
+    match parseInt v with
+    | some z => String.ofList (DumpXml.intString z)
     | none => "bad-op"
   | ["toxml", h] =>
     match fromHex h with
